@@ -137,6 +137,18 @@ Example C10_nonvacuous_lccb :
 Proof. reflexivity. Qed.
 Print Assumptions C10_nonvacuous_lccb.
 
+(* the block of a layout with two equal-valued strides (4 with bound 1, 4 with bound 4): four strides
+   at four distinct positions, the value 4 taken once per position *)
+Example C10_nonvacuous_lccb_positions :
+  let a := mkLayout [[(Some 4, Some 1); (Some 4, Some 4)]; [(Some 16, Some 2); (Some 1, Some 4)]] (Some 0) in
+  map fst (lccb_pos a a 1) = [(1, 1); (0, 0); (0, 1); (1, 0)]%nat /\
+  lccb a a 1 = map snd (lccb_pos a a 1) /\ NoDup (map fst (lccb_pos a a 1)).
+Proof.
+  split; [reflexivity|]. split; [reflexivity|].
+  vm_compute. repeat constructor; cbn; intuition discriminate.
+Qed.
+Print Assumptions C10_nonvacuous_lccb_positions.
+
 Example C10_nonvacuous_dense :
   let l := mkLayout [[(Some 32, Some 2); (Some 4, Some 4)]; [(Some 16, Some 2); (Some 1, Some 4)]] (Some 0) in
   is_dense l = true /\ Forall (fun v => 0 <= v) (all_values l).
